@@ -97,6 +97,21 @@ const DECL_LINES: &[&str] = &[
     "zl := []\nzl = [zl]\nzl = 1",
     "zt := (1, 2)\nzt = (zt, zt)",
     "zf :: fn a -> a(a) end",
+    // loop control inside closures inside loops
+    "loop do\n    zcl :: fn do\n        continue\n    end\n    zcl()\n    break\nend",
+    "loop true do\n    zbr := fn -> int do\n        break\n        ret 1\n    end\n    break\nend",
+    // generic constraint lists, on one line and broken over several
+    "zg1: fn<a: Num> *a -> *a : fn a -> a + a end",
+    "zg2: fn<a: Num, b: Num> *a, *b -> *a : fn a, b -> a end",
+    "zg3: fn<a: Num\n, b: Num> *a, *b -> *a : fn a, b -> a end",
+    "zg4: fn<a: Num,\n    b: Num\n> *a, *b -> *a : fn a, b -> a end",
+    "zg5: fn<a: Num + Num, b: Container a> *a -> void : external",
+    // a type that refers to itself through a second name, then a type error that has to print it
+    "zc10 :: fn x, y do\n    y == (x,)\n    y == x\n    x + 1\nend",
+    // an error located behind non-ASCII text on the same line
+    "zl1 :: \"räksmörgås öl\" + 1",
+    "zl2 := (\"日本語\", 1) + \"ö\"",
+    "print(\"åäö\", \"ñ\" - 1)",
     // a value compared with, or combined with, a tuple that contains it
     "zc1 :: fn x -> x <= (x,) end",
     "zc2 :: fn x -> x >= (x, x) end",
